@@ -830,6 +830,9 @@ func dfClassify(pr *dfPair, m dfMode, obs *dfObserved, bad []string, got, want m
 			}
 		}
 		switch {
+		case sameNumberOtherKind(got[k], want[k]):
+			// a union with two integer members: the uint_val / int_val of the update does not say which
+			sig = "diff/union-integer-member-not-conveyed"
 		case pr.history && underWipe:
 			sig = "diff/atomic-container-overreach"
 		case (zB && !mentioned && !(zA && leafA[k] == want[k])) || (zA && !zB) || (pr.history && (zA || zB)):
